@@ -392,6 +392,12 @@ def parser_units(w, prop, only=None):
                      (o.exc.fields.get("msg") is not None and o.exc.fields.get("pos") is not None))
             return
         it.check("post:returns-a-program", o.value is not None)
+        # the program is the one parsed from *this* text under *this* file name: scanned and parsed by this call, nothing kept
+        # from or for another call (a tree from an earlier parse would carry the earlier call's file name in every position)
+        it.check("post:the-program-is-what-this-call's-parse-returned", o.value is it.ghost.get("program"))
+        gw = [x[1] for x in it.effects if x[0] == "global-write"]
+        kept = [(type(obj).__name__, what) for obj, what, _ in it.writes if not getattr(obj, "fresh", True)]
+        it.check("frame:no-module-level-state-is-read-or-written-by-parse_script", not gw and not kept, detail=str((gw + kept)[:3]))
     U.append(Unit("parser.py::parse_script", s_script, p_script, allowed=("CklSyntaxError",),
                   abstractions={"Lexer.scan": scan_contract, "parse": parse_contract}, replay=replay_fuzz, prepare=NF.install))
 
